@@ -462,6 +462,8 @@ def r17_10(prog, rep):
 
 
 def run(prog: Program, rep: Report, tier: str):
+    rep.rule("R17.11", "a parameterised scalar spelling (re.Pattern[str]) is served like the bare class", floor=4)
+    C.param_spelling_agreement(prog, rep, "R17.11")
     rep.rule("R17.10", "qualname()/name() name a class by its own qualified name; the text exit is for typing forms only", floor=3)
     r17_10(prog, rep)
     rep.rule("R17.9", "origin() interpreted on the catalogue reproduces the documented mapping", floor=1)
